@@ -50,6 +50,28 @@ def irregular(rd):
     return None
 
 
+def _regex_refusal(irr, err):
+    """A pattern that is not a regular expression, refused with the regex module's own error class."""
+    import re
+
+    return irr == "pattern_is_not_a_regex" and isinstance(err, re.error)
+
+
+def caseless_consistent(pool):
+    """Drop names on which legitimate notions of "equal up to case" disagree with plain casefold(): the
+    Unicode caseless match NFKC(casefold(NFD(x))) equates "e\u0301" with "\u00e9", casefold() does not."""
+    import unicodedata
+
+    def key(x):
+        return unicodedata.normalize("NFKC", unicodedata.normalize("NFD", x).casefold())
+
+    out = []
+    for t in pool:
+        if all((key(t) == key(o)) == (t.casefold() == o.casefold()) for o in out):
+            out.append(t)
+    return out
+
+
 def flag_kwargs(op, case_sensitive, merge):
     """Keyword flags of an add call; a flag that equals its documented default (case_sensitive=True,
     merge=False) is left out when the op says so - callers rely on the defaults too."""
@@ -127,6 +149,8 @@ class C05Machine(Machine):
             "start_kind": rng.choice(START_KINDS),
             "start_size": rng.randint(0, 5),
         }
+        cfg["curie_pool"] = caseless_consistent(cfg["curie_pool"])
+        cfg["uri_pool"] = caseless_consistent(cfg["uri_pool"])
         # how often the converter is looked at: usually after every call, sometimes only every k-th call
         # or only at the end of the history (lazily built structures must also be right when COLD)
         cfg["observe_every"] = rng.choice([1, 1, 1, 1, 1, 2, 3, 99])
@@ -618,7 +642,7 @@ class C05Machine(Machine):
         saved_model = copy.deepcopy(self.model) if err is not None else None
         if irr:
             self.probe("irregular_submission_" + ("refused" if err is not None else "accepted"))
-            if err is not None and (isinstance(err, ValueError) or cerr is not None):
+            if err is not None and (isinstance(err, ValueError) or cerr is not None or _regex_refusal(irr, err)):
                 outcome, target = "reject_irregular", None        # refusing it is fine; nothing may have changed
             else:
                 cleaned = MRecord(mrec.prefix, mrec.uri_prefix, mrec.prefix_synonyms - {mrec.prefix},
@@ -644,7 +668,7 @@ class C05Machine(Machine):
         post = self._snapshot()
 
         if err is not None:
-            if not isinstance(err, ValueError) and not (cerr is not None and type(err) is type(cerr)):
+            if not isinstance(err, ValueError) and not (cerr is not None and type(err) is type(cerr)) and not _regex_refusal(irr, err):
                 # (the class with which the Record class itself refuses a submission is not judged)
                 raise Violation(PROP, "wrong_exception", site, {"exception": type(err).__name__, "op": op})
             if post_struct != pre_struct or post["answers"] != pre["answers"] or post_focus != pre_focus or post_single != pre_single:
@@ -817,7 +841,7 @@ class C05Machine(Machine):
         err = self._call(op, robj, cerr, cs, merge)
         saved_model = copy.deepcopy(self.model) if err is not None else None
         if irr:
-            if err is not None and (isinstance(err, ValueError) or cerr is not None):
+            if err is not None and (isinstance(err, ValueError) or cerr is not None or _regex_refusal(irr, err)):
                 outcome = "reject_irregular"
             else:
                 mrec = MRecord(mrec.prefix, mrec.uri_prefix, mrec.prefix_synonyms - {mrec.prefix},
@@ -834,7 +858,7 @@ class C05Machine(Machine):
         self.probe("call_not_observed")
         self.dirty = True
         self.snap = None
-        if err is not None and not isinstance(err, ValueError) and not (cerr is not None and type(err) is type(cerr)):
+        if err is not None and not isinstance(err, ValueError) and not (cerr is not None and type(err) is type(cerr)) and not _regex_refusal(irr, err):
             raise Violation(PROP, "wrong_exception", site, {"exception": type(err).__name__, "op": op})
         if (err is not None) != outcome.startswith("reject"):
             raise Violation(PROP, "accept_reject_mismatch", site,
@@ -886,9 +910,18 @@ class C05Machine(Machine):
             raise Violation(PROP, "delimiter_changed", site,
                             {"started_with": self.delimiter0, "now": conv.delimiter, "op": op})
         try:
-            # (copies of the record OBJECTS: "constructed from its current records", not from data that has to
-            # pass the Record validators once more)
-            fresh = c.Converter([copy.deepcopy(r) for r in conv.records], delimiter=self.delimiter0)
+            # NEW Record objects from the public data of the current records (anything a record object
+            # caches privately must not travel into the reference); only where the Record class refuses its
+            # own record's data (a validator that is stricter than the functions that build records), a copy
+            # of the object is used
+            fresh_records = []
+            for r, d in zip(conv.records, copy.deepcopy(dumps)):
+                try:
+                    fresh_records.append(c.Record(**d))
+                except Exception:  # noqa: BLE001
+                    self.event("record_refused_by_its_own_class_copied_instead")
+                    fresh_records.append(copy.deepcopy(r))
+            fresh = c.Converter(fresh_records, delimiter=self.delimiter0)
         except Exception as e:  # noqa: BLE001
             raise Violation(PROP, "fresh_construct_failed", site, {"exception": type(e).__name__, "op": op})
         fsnap = observe.snapshot(fresh, self.strings, self.pairs, full=True, ordered=False)
@@ -937,13 +970,19 @@ class C05Machine(Machine):
             for u in sorted(submitted.all_uri_prefixes()):
                 if rpm is not None and rpm.get(u) != t:
                     bad.append(["reverse_prefix_map", u, rpm.get(u), t])
-                try:
-                    ref = conv.parse_uri(u, return_none=True)
-                except Exception as e:  # noqa: BLE001
-                    bad.append(["parse_uri", u, "raised " + type(e).__name__, t])
-                    continue
-                if ref is None or ref[0] != t or ref[1] != "":
-                    bad.append(["parse_uri", u, None if ref is None else list(ref), t])
+                if target.pattern is None:
+                    # (with a pattern, whether the EMPTY identifier parses is not this property's business)
+                    try:
+                        ref = conv.parse_uri(u, return_none=True)
+                    except Exception as e:  # noqa: BLE001
+                        bad.append(["parse_uri", u, "raised " + type(e).__name__, t])
+                        continue
+                    if ref is None or ref[0] != t or ref[1] != "":
+                        bad.append(["parse_uri", u, None if ref is None else list(ref), t])
+                # ... and the expand side knows it too: every URI prefix of the record is among its expansions
+                allx = observe.callm(conv, "expand_pair_all", t, "1")
+                if allx != observe.ABSENT and (allx[0] != "ok" or not isinstance(allx[1], list) or (u + "1") not in allx[1]):
+                    bad.append(["expand_pair_all", [t, "1"], allx, u + "1"])
             if bad:
                 raise Violation(PROP, "new_record_unresolved", site, {"bad": bad[:6], "op": op})
 
